@@ -2140,6 +2140,21 @@ package engine
 //@       (called(cerr) && cerr != nil ==> result == cerr)
 //@   nok[a-predicate-whose-clauses-are-separated-fails-the-load] called(ferr) && ferr != nil ==> result == ferr
 //@   nok[a-directive-that-fails-fails-the-load] called(derr) && derr != nil ==> result == derr
+//@   -- c20init additions
+//@   bind sperr = (*Parser).SetPlaceholder#1
+//@   bind qm = NewAtom#1
+//@   bind et, eerr = expand#1
+//@   at-call NewParser requires[the-text-is-read-with-this-machine-s-operators-and-flags] a0 == vm
+//@   at-call (*Parser).SetPlaceholder requires[the-caller-s-arguments-stand-for-the-question-marks-of-the-text] a0 == local(p, *Parser) && a1 == qm && a2 == args
+//@   at-call (*Parser).Term requires[placeholders-are-set-before-the-first-term-is-read] called(sperr) && sperr == nil && a0 == local(p, *Parser)
+//@   nok[placeholder-arguments-that-cannot-be-converted-fail-the-load] called(sperr) && sperr != nil ==> result == sperr
+//@   at-call expand requires[each-term-read-is-expanded-under-the-caller-s-context] a0 == ctx && a1 == vm && a2 == rt && a3 == nil
+//@   nok[a-term-expansion-that-fails-fails-the-load] called(eerr) && eerr != nil ==> result == eerr
+//@   at-call piArg#1 requires[the-expanded-term-is-what-is-classified] eerr == nil && a0 == et && a1 == nil
+//@   at-call compile requires[the-expanded-term-is-what-is-compiled] a0 == et && a1 == nil
+//@   at-call (*VM).directive requires[a-directive-runs-at-its-position-in-the-text-under-the-caller-s-context-on-the-text-being-loaded] a0 == vm && a1 == ctx && a2 == text
+//@   at-call (*VM).directive requires[only-a-term-with-principal-functor-if-1-is-a-directive] pi1.name == atomIf && pi1.arity == 1
+//@   at-call (*text).flush requires[the-run-closed-is-that-of-the-text-being-loaded] a0 == text
 //@   ensures[directives-do-not-define-procedures] vm.procedures == old(vm.procedures) && forall q procedureIndicator :: has(vm.procedures, q) == old(has(vm.procedures, q)) && vm.procedures[q] == old(vm.procedures[q])
 //@   ensures[text-invariants] result == nil ==> text.clauses != nil &&
 //@       (forall q procedureIndicator :: has(text.clauses, q) ==> text.clauses[q] != nil) &&
@@ -2163,6 +2178,15 @@ package engine
 //@   at-call append requires[the-clauses-of-a-later-load-follow-the-earlier-ones-in-source-order] a0 == local(existing, *userDefined).clauses && a1 == local(u, *userDefined).clauses
 //@   bind merged = append#1
 //@   at-store userDefined.clauses requires[the-extended-list-becomes-the-definition-of-the-multifile-predicate] called(merged) && v == merged && target == local(existing, *userDefined)
+//@   -- c20init additions
+//@   bind gp = Call#1
+//@   at-call (*VM).compile requires[the-text-is-read-with-the-caller-s-context-and-arguments] a0 == vm && a1 == ctx && a3 == s && a4 == args
+//@   at-call (*text).flush requires[the-last-run-of-the-text-just-read-is-closed] cerr == nil && a0 == argof(cerr, 2)
+//@   at-call Call requires[initialization-goals-run-only-after-the-whole-text-is-loaded] cerr == nil && called(ferr) && ferr == nil
+//@   at-call Call requires[an-initialization-goal-is-called-as-a-goal-with-no-bindings-and-the-trivial-continuation] a0 == vm && a1 == local(g, Term) && a2 == Success && a3 == nil
+//@   at-call (*Promise).Force#1 requires[the-goal-runs-under-the-caller-s-context] called(gp) && a0 == gp && a1 == ctx
+//@   ensures[an-initialization-goal-that-fails-is-reported] called(gerr) && gerr == nil && !gok ==> result != nil
+//@   ensures[a-load-without-error-reports-none] cerr == nil && called(ferr) && ferr == nil && !(called(gerr) && (gerr != nil || !gok)) ==> result == nil
 
 //@ func WriteTerm
 //@   trusted
@@ -2789,9 +2813,46 @@ package engine
 //@   property C13 C20
 //@   nosafety
 //@   trusted-frame
-//@   checks only post
+//@   checks only post at-call at-call-missing at-store at-store-missing
 //@   bind dok, derr = (*Promise).Force#1
 //@   ensures[an-error-or-a-cancellation-of-a-directive-is-reported] called(derr) && derr != nil ==> result == derr
+//@   -- c20init additions
+//@   bind ferr = (*text).flush#1
+//@   bind pi, arg, pierr = piArg#1
+//@   bind cp = Call#1
+//@   bind u1 = (*text).forEachUserDefined#1
+//@   bind u2 = (*text).forEachUserDefined#2
+//@   bind u3 = (*text).forEachUserDefined#3
+//@   bind fname, fbytes, oerr = (*VM).open#1
+//@   bind ierr = (*VM).compile#1
+//@   bind eerr = (*VM).ensureLoaded#1
+//@   at-call (*text).flush requires[the-pending-run-of-clauses-is-closed-first] a0 == text
+//@   ensures[a-run-that-cannot-be-closed-fails-the-directive] called(ferr) && (ferr != nil ==> result == ferr)
+//@   at-call piArg requires[the-directive-is-inspected-only-after-the-run-is-closed] called(ferr) && ferr == nil && a0 == d && a1 == nil
+//@   at-call dynamic requires[the-argument-of-a-built-in-directive-is-its-first-argument] fn == arg && a0 == 0
+//@   at-call (*text).forEachUserDefined requires[declarations-mark-the-predicates-of-the-text-being-loaded] a0 == text
+//@   at-call (*text).forEachUserDefined#1 requires[dynamic-1] pi.name == atomDynamic && pi.arity == 1
+//@   at-call (*text).forEachUserDefined#2 requires[multifile-1] pi.name == atomMultifile && pi.arity == 1
+//@   at-call (*text).forEachUserDefined#3 requires[discontiguous-1] pi.name == atomDiscontiguous && pi.arity == 1
+//@   ensures[a-declaration-reports-the-error-of-its-argument] (called(u1) ==> result == u1) && (called(u2) ==> result == u2) && (called(u3) ==> result == u3)
+//@   at-call append requires[only-initialization-1-collects-a-goal] pi.name == atomInitialization && pi.arity == 1
+//@   at-call append requires[an-initialization-goal-is-put-after-the-goals-collected-so-far] a0 == old(text.goals)
+//@   at-call append requires[one-goal-is-added] len(a1) == 1
+//@   bind grown = append#1
+//@   at-store text.goals requires[the-extended-list-is-the-text-s-list-of-initialization-goals] called(grown) && v == grown && target == text
+//@   ensures[an-initialization-goal-is-not-run-now] called(grown) ==> !called(cp) && !called(derr) && result == nil
+//@   at-call (*VM).open requires[include-opens-the-file-named] pi.name == atomInclude && pi.arity == 1 && a0 == vm && a2 == nil
+//@   ensures[a-file-that-cannot-be-included-is-an-error] called(oerr) && oerr != nil ==> result == oerr
+//@   at-call (*VM).compile requires[the-included-text-is-read-into-the-text-being-loaded-under-the-caller-s-context] oerr == nil && a0 == vm && a1 == ctx && a2 == text && len(a4) == 0
+//@   ensures[an-error-of-the-included-text-is-reported] called(ierr) ==> result == ierr
+//@   at-call (*VM).ensureLoaded requires[ensure-loaded-1-under-the-caller-s-context] pi.name == atomEnsureLoaded && pi.arity == 1 && a0 == vm && a1 == ctx && a3 == nil
+//@   ensures[an-error-of-the-file-loaded-is-reported] called(eerr) ==> result == eerr
+//@   at-call Call requires[any-other-directive-is-called-as-a-goal-with-no-bindings-and-the-trivial-continuation] a0 == vm && a1 == d && a2 == Success && a3 == nil
+//@   at-call Call requires[only-what-is-not-a-built-in-directive-is-called] !(pi.arity == 1 && (pi.name == atomDynamic || pi.name == atomMultifile || pi.name == atomDiscontiguous ||
+//@       pi.name == atomInitialization || pi.name == atomInclude || pi.name == atomEnsureLoaded))
+//@   at-call (*Promise).Force#1 requires[the-directive-runs-now-under-the-caller-s-context] called(cp) && a0 == cp && a1 == ctx
+//@   ensures[a-directive-that-fails-fails-the-load] called(derr) && derr == nil && !dok ==> result != nil
+//@   ensures[a-directive-that-succeeds-lets-the-load-go-on] called(derr) && derr == nil && dok ==> result == nil
 
 //@ ---------------------------------------------------------------- tables filled by package initialisation (C07, C18)
 //@ -- keys are atom *names* (ISO 13211-1 9.1, 9.3, 9.4 for the evaluable functors; 6.3.4 for the specifiers); a backslash is written \\
